@@ -82,6 +82,14 @@ def reparseSplit (p : Nat → Bool) (b : Bytes) : Option (Bytes × Bytes) :=
   | none => none
   | some rs => some (b.take (splitOffset p rs), b.drop (splitOffset p rs))
 
+/-- mirrors `impl Writeable for Unsigned*`: the halves named by the translated write plan, in order -/
+def writeUnsigned (plan : List WPart) (x : Bytes × Bytes) : Bytes :=
+  plan.flatMap (fun | .bytes => x.1 | .experimental => x.2)
+
+/-- `Unsigned*::try_from(b)` then `write` -/
+def rewriteUnsigned (p : Nat → Bool) (plan : List WPart) (b : Bytes) : Option Bytes :=
+  (reparseSplit p b).map (writeUnsigned plan)
+
 /-- mirrors the sign methods on a re-parsed unsigned message: `bytes ‖ signature record ‖ experimental_bytes` -/
 def signReparsed (p : Nat → Bool) (b sig : Bytes) : Option Bytes :=
   (reparseSplit p b).map (fun x => x.1 ++ sig ++ x.2)
